@@ -1,4 +1,4 @@
-from collections.abc import Iterable, Mapping
+from collections.abc import Iterable, Mapping, Set
 from amaranth_types import ShapeLike
 from typing import Any, Hashable, Sized
 from statistics import fmean
@@ -30,6 +30,8 @@ def make_hashable(val) -> Hashable:
     except TypeError:
         if isinstance(val, Mapping):
             return frozenset(((k, make_hashable(v)) for k, v in val.items()))
+        elif isinstance(val, Set):
+            return frozenset(make_hashable(v) for v in val)
         elif isinstance(val, Iterable):
             return tuple(make_hashable(v) for v in val)
         else:
